@@ -1,6 +1,6 @@
 From Coq Require Import ZArith List Bool Lia.
 From TLX Require Import Model.Bits.
-Open Scope Z_scope.
+Local Open Scope Z_scope.
 
 Lemma ceval_testbit : forall e x y j, 0 <= j ->
   Z.testbit (ceval e x y) j = cevalb e (Z.testbit x j) (Z.testbit y j).
